@@ -86,8 +86,14 @@ def check_exit(col, sess, how, cls, inp):
     if rc is None:
         col.add("C17", f"C17|no_exit_after_quit|{cls}", f"radar still running 20 s after {how}", inp)
         return
-    if rc != 0 or loc:
+    if rc != 0:
         col.add("C17", f"C17|exit_status_after_quit|{cls}", f"exit status {rc} (panic at {loc}) after {how}", inp)
+    elif loc:
+        # a panic message although the client ran until the quit request and exited with status 0:
+        # a helper thread ended (the gpsd thread on a failed handshake). The property is about the
+        # client, which kept running: counted, not a finding (DESIGN 3)
+        col.count("helper_thread_panic_messages")
+        col.cls(f"helper_thread_panic|{loc}")
     if diffs:
         col.add("C17", f"C17|termios_not_restored|{cls}", f"terminal flags differ from before the start: {diffs} (after {how})", inp)
     scr = sess.p.screen
